@@ -302,9 +302,8 @@ def zippers(chk):
         chk.check(okd2 and order, 'C01-R5', CAT, q, 'phase 2: merged particles decoded after the originals into the advanced outputs', '',
                   f'merged decode call ok={okd2}; original-then-merged order={bool(order)}', node=calls2[0] if calls2 else CB)
         # R6 bounds
-        k = analyse(src, CAT, q, CONTRACTS)
-        for a in k.accesses.values():
-            chk.add('C01-R6', CAT, q, a.key, a.verdict, a.detail, line=a.line, witness=a.witness)
+        from ..core.kernels import add_bounds_obligations
+        add_bounds_obligations(chk, 'C01-R6', CAT, q, CONTRACTS)
 
 
 def _decoder_args(call, source, local, Z):
